@@ -509,3 +509,34 @@ func genBloomCase(r *gen.Rand) *BloomIn {
 	in.Cond = genCond(1 + r.Intn(3))
 	return in
 }
+
+// probeMinMaxSet records what the other two registered skip-index readers do when they are handed a data file, so that
+// the check notices if they ever become functional (then they need their own stream).
+func probeMinMaxSet() {
+	cond := (&BCond{Op: "=", Col: "n", Lit: "1"}).expr()
+	option := &query.ProcessorOptions{Condition: cond}
+	schema := record.Schemas{{Name: "n", Type: influx.Field_Type_Int}}
+	res := map[string]string{}
+	mm, err := sparseindex.NewMinMaxIndexReader(rpn.ConvertToRPNExpr(cond), schema, option, true)
+	if err != nil {
+		res["minmax"] = "constructor error: " + err.Error()
+	} else {
+		res["minmax_readfunc_nil"] = strconv.FormatBool(mm.ReadFunc == nil)
+		p := guard(func() { err = mm.ReInit(&tsspFile{p: "/nonexistent/00000001-0001-00000001.tssp"}) })
+		switch {
+		case p != "":
+			res["minmax"] = "ReInit panics: " + p
+		case err != nil:
+			res["minmax"] = "ReInit error: " + err.Error()
+		default:
+			res["minmax"] = "ReInit ok"
+		}
+	}
+	st, err := sparseindex.NewSetIndexReader(rpn.ConvertToRPNExpr(cond), schema, option, true)
+	if err == nil {
+		_ = st.ReInit(&tsspFile{p: "/nonexistent/x.tssp"})
+		ok, _ := st.MayBeInFragment(0)
+		res["set_maybe"] = strconv.FormatBool(ok)
+	}
+	gen.Emit(map[string]interface{}{"skprobe": res})
+}
